@@ -373,6 +373,44 @@ func whitelistShapes(emit func(string)) {
 	}
 }
 
+// one or two lexemes per token class: every window of three classes that a folding rule
+// can look at, and the five-token patterns with each position replaced by every class
+var classReps = []string{"1", "foo", "'s'", "@v", "+", "-", "!", "(", ")", ",", ";", "{", "}", ".", "\\", "and", "not", "like", "in",
+	"select", "union", "from", "by", "into outfile", "collate", "int", "if", "case", "exec", "binary"}
+
+func foldShapes(emit func(string)) {
+	for _, a := range classReps {
+		for _, b := range classReps {
+			for _, c := range classReps {
+				emit(a + " " + b + " " + c)
+			}
+		}
+	}
+	five := [][]string{
+		{"1", "+", "(", "1", ")"}, {"1", ",", "(", "1", ")"}, {"foo", "=", "(", "bar", ")"}, {"foo", "+", "(", "1", ")"},
+		{"1", ")", ",", "(", "1"}, {"foo", ")", "+", "(", "bar"},
+	}
+	tails := []string{"", " 1", " foo", " +", " )", " ,", " union select 1", " --", " or 1=1", " ( 1 )"}
+	heads := []string{"", "( ", "- ", "/**/ ", "1 ", "foo "}
+	for _, f := range five {
+		for _, h := range heads {
+			for _, t := range tails {
+				emit(h + strings.Join(f, " ") + t)
+				emit(h + strings.Join(f, "") + t)
+			}
+		}
+		for i := range f {
+			for _, r := range classReps {
+				g := append([]string{}, f...)
+				g[i] = r
+				for _, t := range []string{"", " 1", " foo", " +"} {
+					emit(strings.Join(g, " ") + t)
+				}
+			}
+		}
+	}
+}
+
 func sqlAll(c *corpus, r *rng, tier string, scale int) *inputSet {
 	z := tierSizes(tier, scale)
 	s := newInputSet()
@@ -398,6 +436,7 @@ func sqlAll(c *corpus, r *rng, tier string, scale int) *inputSet {
 	}
 	rec(nil, z.exhDepthLex)
 	whitelistShapes(func(x string) { s.add("whitelist-shapes", x) })
+	foldShapes(func(x string) { s.add("fold-shapes", x) })
 	for i := 0; i < z.randBytes; i++ {
 		s.add("random-bytes", randomSeq(r, sqlAlphabet, 3, 9))
 	}
